@@ -690,25 +690,32 @@ pub fn run(args: &Args) -> i32 {
     let deadline = std::time::Instant::now() + std::time::Duration::from_secs(if thorough { 1500 } else { 40 });
     let accs = explore::par::run(&cases, Acc::new, |_, case, acc| {
         let b = if case.mode == Mode::Explore { bound } else { 0 };
-        let caps = Caps { deadline: Some(deadline), max_executions: 100_000 };
-        let mut local: Vec<(Vec<u32>, usize, Outcome)> = Vec::new();
-        let st = dfs::explore(b, &caps, || execute(case, seed), |e, o| local.push((e.choices.clone(), e.cost, o)));
+        let caps = Caps { deadline: Some(deadline), max_executions: 100_000, ..Caps::default() };
+        let mut viol = explore::report::ViolSet::new();
+        let mut states: Vec<u64> = Vec::new();
+        let mut outcomes: Vec<u64> = Vec::new();
+        let st = dfs::explore(
+            b,
+            &caps,
+            || execute(case, seed),
+            |e, o| {
+                states.extend(o.fps.iter().copied());
+                let mut h = Fnv::new();
+                h.str(&format!("{:?}|{:?}|{:?}|{:?}", o.driver, o.close_calls, o.closing, o.datagram_enabled));
+                outcomes.push(h.finish());
+                for (sig, msg) in judge(case, &o) {
+                    viol.add(sig, msg, (e.cost, case.seq.len() * 10 + case.streams.len() * 10 + e.choices.len()), &e.choices);
+                }
+            },
+        );
         if st.capped {
             acc.capped_cases += 1;
         }
         acc.dfs.merge(&st);
-        for (choices, cost, o) in local {
-            acc.evaluations += 1;
-            for f in &o.fps {
-                acc.states.insert(*f);
-            }
-            let mut h = Fnv::new();
-            h.str(&format!("{:?}|{:?}|{:?}|{:?}", o.driver, o.close_calls, o.closing, o.datagram_enabled));
-            acc.outcomes.insert(h.finish());
-            for (sig, msg) in judge(case, &o) {
-                acc.violation(sig, msg, (cost, case.seq.len() * 10 + case.streams.len() * 10 + choices.len()), || case_json(case, &choices, seed));
-            }
-        }
+        acc.evaluations += st.executions;
+        acc.states.extend(states);
+        acc.outcomes.extend(outcomes);
+        viol.drain_into(acc, |choices| case_json(case, choices, seed));
         if case.seq.len() >= 2 || case.streams.len() >= 2 {
             let mut h = Fnv::new();
             h.str(&format!("{case:?}"));
